@@ -7,7 +7,7 @@ import (
 // naive way of checking if the input regex describes a constant string, or something else.
 // ex: `^math$` or `^reduce$` would return true, while `^foo[0-9]+$` wouldn't
 func RegexMatchesConstantString(regex string) bool {
-	if regex == "" {
+	if len(regex) < 2 {
 		return false
 	}
 
@@ -15,9 +15,43 @@ func RegexMatchesConstantString(regex string) bool {
 		return false
 	}
 
-	return !strings.ContainsAny(regex, ".+*?()|[]{}")
+	body := regex[1 : len(regex)-1]
+	for i := 0; i < len(body); i++ {
+		if body[i] == '\\' {
+			// an escaped punctuation character stands for itself; an escaped
+			// letter or digit is a class or an assertion (\d, \w, \b...)
+			if i+1 >= len(body) || isASCIIAlphanumeric(body[i+1]) {
+				return false
+			}
+			i++
+			continue
+		}
+
+		if strings.IndexByte(".+*?()|[]{}^$", body[i]) != -1 {
+			return false
+		}
+	}
+
+	return true
 }
 
 func ConstantStringFromRegex(regex string) string {
-	return regex[1 : len(regex)-1]
+	body := regex[1 : len(regex)-1]
+	if !strings.Contains(body, "\\") {
+		return body
+	}
+
+	var constant strings.Builder
+	for i := 0; i < len(body); i++ {
+		if body[i] == '\\' && i+1 < len(body) {
+			i++
+		}
+		constant.WriteByte(body[i])
+	}
+
+	return constant.String()
+}
+
+func isASCIIAlphanumeric(c byte) bool {
+	return (c >= '0' && c <= '9') || (c >= 'a' && c <= 'z') || (c >= 'A' && c <= 'Z')
 }
